@@ -326,19 +326,7 @@ def maybe_replace_function_args(new_node, cur_ast_node, cst_idx, cst_list):
             value="{start}{args}{end}".format(
                 start=cst_list[cst_idx].value[: arg_start_idx + 1],
                 end=cst_list[cst_idx].value[func_end - 1 :],
-                args=", ".join(
-                    "{arg_name}{annotation}".format(
-                        annotation=(
-                            ""
-                            if arg.annotation is None
-                            else ": {annotation_unparsed}".format(
-                                annotation_unparsed=to_code(arg.annotation).rstrip("\n")
-                            )
-                        ),
-                        arg_name=arg.arg,
-                    )
-                    for arg in new_args
-                ),
+                args=to_code(new_node.args).rstrip("\n"),
             ),
         )
 
